@@ -1,11 +1,21 @@
 import PrefVerif.Model.SingleCrossing
 /-!
-Model of the combinatorial part of `is_one_euclidean`
-(`preflibtools/properties/subdomains/ordinal/euclidean.py`): the single-crossing pre-check, the
-colouring of the alternatives from the first and last stored voters, the split into coloured and
-"grey" alternatives and the axis built from the colours.  The code is modelled AS IT IS (defect D17
-is not repaired): grey alternatives never enter the LP.  Python sets of small ints are enumerated
-in increasing order.  The LP solver and the float arithmetic of the grey placement are not modelled.
+Model of `is_one_euclidean` (`preflibtools/properties/subdomains/ordinal/euclidean.py`) up to and
+including the linear programme handed to the solver: the single-crossing pre-check, the colouring of
+the alternatives from the first and last stored voters, the split into coloured and "grey"
+alternatives, the axis built from the colours (`axis_dict` counting + stable descending sort),
+`_restrict_preferences`, the constraint generation of `_one_euclidean_solve_lp` and the set
+bookkeeping of `_one_euclidean_gen_sets`.  The code is modelled AS IT IS (defect D17 is not
+repaired): grey alternatives never enter the LP.  The LP solver and the float arithmetic of the grey
+placement are not modelled.
+
+ASSUMPTION on Python `set` iteration (CPython 3.12, checked empirically by
+`/tmp/agents/EUC/setorder.py`): the alternatives are `1..m` with `m ≤ 7`.  An int `k` hashes to
+itself and lands in slot `k mod size` of a table of at least 8 slots, so every set of ints `< 8`
+(however built: `set(dict)`, `set([...])`, set difference, after `remove`) iterates in INCREASING
+order, and `set.pop()` pops the smallest element.  From `m = 8` on this fails (`{1, 8}` built by the
+comprehension iterates `8, 1`); the model is only claimed for `m ≤ 7`.  Accordingly all functions
+below take the alternatives `alts` sorted increasingly.
 -/
 namespace PrefVerif.Euclid
 open PrefVerif.SingleCrossing
@@ -60,5 +70,186 @@ def stage (alts : List Nat) (orders : List (List Nat)) : Stage :=
       | none => { sc := true, coloured := none, grey := [] }
       | some g => { sc := true, coloured := some g, grey := alts.filter (fun c => colour g c == 3) }
     | _, _ => { sc := true, coloured := none, grey := [] }
+
+/-! ## The axis -/
+
+/-- `C_set_plus = set([c for c in C_set if gamma[c] != 3])`, enumerated increasingly -/
+def colouredAlts (alts : List Nat) (g : Colouring) : List Nat := alts.filter (fun c => colour g c != 3)
+
+/-- `itertools.combinations(l, 2)` -/
+def combos2 : List Nat → List (Nat × Nat)
+  | [] => []
+  | a :: rest => rest.map (fun b => (a, b)) ++ combos2 rest
+
+/-- the key of `axis_dict` incremented for the pair `(a, b)` (`none`: no branch of the
+`if/elif` chain applies — impossible for colours in `{0, 1, 2}`) -/
+def axisWinner (g : Colouring) (v1 vn : List Nat) (a b : Nat) : Option Nat :=
+  let ga := colour g a
+  let gb := colour g b
+  if (ga == 2 && gb == 0) || (ga == 0 && gb == 1) || (ga == 2 && gb == 1) then some a
+  else if (gb == 2 && ga == 0) || (gb == 0 && ga == 1) || (gb == 2 && ga == 1) then some b
+  else if (ga == 0 && gb == 0) || (ga == 1 && gb == 1) then
+    if idx v1 a < idx v1 b then some a else some b
+  else if ga == 2 && gb == 2 then
+    if idx vn a < idx vn b then some b else some a
+  else none
+
+/-- `axis_dict[k] += 1` -/
+def bump (d : List (Nat × Nat)) (k : Nat) : List (Nat × Nat) :=
+  d.map (fun kv => if kv.1 == k then (kv.1, kv.2 + 1) else kv)
+
+/-- one round of the loop over `itertools.combinations(C_set_plus, 2)` -/
+def axisStep (g : Colouring) (v1 vn : List Nat) (d : List (Nat × Nat)) (ab : Nat × Nat) : List (Nat × Nat) :=
+  match axisWinner g v1 vn ab.1 ab.2 with
+  | some k => bump d k
+  | none => d
+
+/-- `axis_dict` after the loop over `itertools.combinations(C_set_plus, 2)`; the keys are in
+insertion order, i.e. the iteration order of `C_set_plus` -/
+def axisDict (g : Colouring) (v1 vn : List Nat) (cplus : List Nat) : List (Nat × Nat) :=
+  (combos2 cplus).foldl (axisStep g v1 vn) (cplus.map (fun c => (c, 0)))
+
+/-- `[k for k, v in sorted(axis_dict.items(), key=lambda item: item[1], reverse=True)]`:
+Python's sort is stable and `reverse=True` keeps equal elements in their original order, so this
+is a stable sort for the order "larger count first" -/
+def axisOf (g : Colouring) (v1 vn : List Nat) (cplus : List Nat) : List Nat :=
+  (PrefVerif.Py.stableSort (fun x y => decide (y.2 ≤ x.2)) (axisDict g v1 vn cplus)).map (·.1)
+
+/-- `_restrict_preferences(instance, C_set_plus)` -/
+def restrictPreferences (orders : List (List Nat)) (cplus : List Nat) : List (List Nat) :=
+  orders.map (fun pref => pref.filter (fun c => cplus.contains c))
+
+/-! ## The linear programme of `_one_euclidean_solve_lp`
+
+A constraint is `Σ coeffᵢ·varᵢ  (≤ | = | ≥)  rhs` over exact rationals, in the normal form
+python-mip stores it (`lhs - rhs  sense  0`, the constant moved to the right-hand side). -/
+
+inductive Var where
+  | voter (i : Nat)         -- `voter_{i}`: position of voter `i`
+  | alt (a : Nat)           -- `alternative_{a}`: position of alternative `a`
+  deriving Repr, BEq, DecidableEq
+
+inductive Sense where
+  | le | eq | ge
+  deriving Repr, BEq, DecidableEq
+
+structure Constr where
+  terms : List (Rat × Var)
+  sense : Sense
+  rhs : Rat
+  deriving Repr
+
+def eval (asg : Var → Rat) (terms : List (Rat × Var)) : Rat := (terms.map (fun t => t.1 * asg t.2)).sum
+
+def satisfies (asg : Var → Rat) (c : Constr) : Bool :=
+  match c.sense with
+  | .le => decide (eval asg c.terms ≤ c.rhs)
+  | .eq => decide (eval asg c.terms = c.rhs)
+  | .ge => decide (eval asg c.terms ≥ c.rhs)
+
+/-- `pairs = [(a, b) for a, b in itertools.combinations(axis, 2) if axis.index(a) < axis.index(b)]` -/
+def lpPairs (axis : List Nat) : List (Nat × Nat) :=
+  (combos2 axis).filter (fun ab => decide (idx axis ab.1 < idx axis ab.2))
+
+/-- `all_vars[n + axis.index(a)] + 1 <= all_vars[n + axis.index(b)]`  ⇝  `x_a - x_b ≤ -1`
+(`all_vars[n + axis.index(a)]` is the variable named `alternative_{axis[axis.index(a)]}`, and
+`axis[axis.index(a)] == a`) -/
+def axisConstr (a b : Nat) : Constr :=
+  { terms := [(1, .alt a), (-1, .alt b)], sense := .le, rhs := -1 }
+
+/-- `all_vars[i] + 1 <= (x_a + x_b) / 2`  ⇝  `v_i - x_a/2 - x_b/2 ≤ -1` -/
+def voterLeft (i a b : Nat) : Constr :=
+  { terms := [(1, .voter i), (-(1 : Rat) / 2, .alt a), (-(1 : Rat) / 2, .alt b)], sense := .le, rhs := -1 }
+
+/-- `all_vars[i] >= (x_b + x_a) / 2 + 1`  ⇝  `v_i - x_b/2 - x_a/2 ≥ 1` -/
+def voterRight (i a b : Nat) : Constr :=
+  { terms := [(1, .voter i), (-(1 : Rat) / 2, .alt b), (-(1 : Rat) / 2, .alt a)], sense := .ge, rhs := 1 }
+
+/-- the constraint of voter `i` (with restricted ranking `pref`) for the axis pair `(a, b)` -/
+def voterConstr (i : Nat) (pref : List Nat) (a b : Nat) : Constr :=
+  if idx pref a < idx pref b then voterLeft i a b else voterRight i a b
+
+/-- the constraints added for one axis pair: the axis constraint, then one per voter `0..n-1` -/
+def pairConstrs (preferences : List (List Nat)) (ab : Nat × Nat) : List Constr :=
+  axisConstr ab.1 ab.2 ::
+    (preferences.zipIdx).map (fun pi => voterConstr pi.2 pi.1 ab.1 ab.2)
+
+/-- all constraints of `_one_euclidean_solve_lp(preferences, axis)`, in the order they are added -/
+def lpConstraints (preferences : List (List Nat)) (axis : List Nat) : List Constr :=
+  (lpPairs axis).flatMap (pairConstrs preferences)
+
+/-! ## `_one_euclidean_gen_sets` -/
+
+/-- state of the double loop: `ind`, `tmp`, and the dict `f` (keys in insertion order) -/
+structure GenState where
+  ind : Nat
+  tmp : Option Nat
+  f : List (Nat × List Nat)
+  deriving Repr
+
+/-- `if not ind in f: f[ind] = set()` / `f[ind].add(a)` (sets kept sorted, duplicate-free) -/
+def addTo (f : List (Nat × List Nat)) (ind a : Nat) : List (Nat × List Nat) :=
+  match f.lookup ind with
+  | some _ => f.map (fun kv => if kv.1 == ind then (kv.1, if kv.2.contains a then kv.2 else (kv.2 ++ [a]).mergeSort) else kv)
+  | none => f ++ [(ind, [a])]
+
+/-- one step of the inner `for b in C_set_minus` for the popped `a` -/
+def genStep (v1 : List Nat) (s : GenState) (ab : Nat × Nat) : GenState :=
+  if idx v1 ab.1 > idx v1 ab.2 then
+    let ind := if s.tmp.isNone then s.ind + 1 else s.ind
+    { ind := ind, tmp := some ab.2, f := addTo s.f ind ab.1 }
+  else { s with f := addTo s.f s.ind ab.1 }
+
+structure GenSets where
+  f : List (List Nat)
+  g : List (List Nat)
+  k : Nat
+  /-- the contents of the caller's `C_set_plus` / `C_set_minus` after the call (both are mutated) -/
+  plusAfter : List Nat
+  minusAfter : List Nat
+  deriving Repr
+
+/-- `_one_euclidean_gen_sets(v_1, C_set_plus, C_set_minus)` for a non-empty `C_set_plus` (it always
+contains the tops of the first and the last voter).  With `C_set_minus` non-empty the outer `while`
+runs exactly once: the inner `while` pops `C_set_plus` empty (smallest element first) and for each
+popped `a` scans `C_set_minus` increasingly; `tmp` is never reset, so `ind` is bumped at most once
+inside.  Afterwards `tmp` (if any) is removed from `C_set_minus` and put in `g[ind]`, and
+`g[ind + 1]` is (an alias of) what is left of `C_set_minus`. -/
+def genSets (v1 : List Nat) (cplus cminus : List Nat) : GenSets :=
+  if cminus.isEmpty then { f := [cplus], g := [], k := 1, plusAfter := cplus, minusAfter := cminus }
+  else if cplus.isEmpty then { f := [], g := [], k := 0, plusAfter := cplus, minusAfter := cminus }
+  else
+    let s := (cplus.flatMap (fun a => cminus.map (fun b => (a, b)))).foldl (genStep v1)
+      { ind := 0, tmp := none, f := [] }
+    let f := s.f.map (·.2)
+    match s.tmp with
+    | some t =>
+      let rest := cminus.filter (· != t)
+      { f := f, g := [[t], rest], k := f.length, plusAfter := [], minusAfter := rest }
+    | none => { f := f, g := [cminus], k := f.length, plusAfter := [], minusAfter := cminus }
+
+/-! ## Everything up to the LP -/
+
+structure LP where
+  /-- `C_set_plus` -/
+  cplus : List Nat
+  axis : List Nat
+  preferences : List (List Nat)
+  constraints : List Constr
+  /-- what `_one_euclidean_gen_sets` returns if the LP turns out feasible -/
+  sets : GenSets
+
+/-- the linear programme `is_one_euclidean` hands to the solver; `none` when the function returns
+`(False, None)` before reaching it (pre-check or colouring failed).  `alts` sorted increasingly. -/
+def lp (alts : List Nat) (orders : List (List Nat)) : Option LP :=
+  match (stage alts orders).coloured, orders.head?, orders.getLast? with
+  | some g, some v1, some vn =>
+    let cplus := colouredAlts alts g
+    let axis := axisOf g v1 vn cplus
+    let prefs := restrictPreferences orders cplus
+    some { cplus := cplus, axis := axis, preferences := prefs,
+           constraints := lpConstraints prefs axis,
+           sets := genSets v1 cplus ((stage alts orders).grey) }
+  | _, _, _ => none
 
 end PrefVerif.Euclid
